@@ -86,10 +86,11 @@ def handle (line : String) : String :=
     match parseShards ss with
     | none => badCase "shards"
     | some shards =>
-      if !shards.all wfB then badCase "input outside the theorems' hypotheses (wfB)" else
       let model := match merge shards with
         | none => "err"
         | some out => "ok " ++ showShard out
+      -- inputs outside the theorems' hypotheses are only acceptable when model and implementation reject them
+      if !shards.all wfB && !(model == "err" && impl == "err") then badCase "input outside the theorems' hypotheses (wfB)" else
       match fields impl with
       | ["err"] => answer model
       | ["ok", o] =>
@@ -104,10 +105,10 @@ def handle (line : String) : String :=
     match parseShard s with
     | none => badCase "shard"
     | some sh =>
-      if !wfB sh then badCase "input outside the theorems' hypotheses (wfB)" else
       let model := match explode sh with
         | none => "err"
         | some outs => "ok " ++ showShards outs
+      if !wfB sh && !(model == "err" && impl == "err") then badCase "input outside the theorems' hypotheses (wfB)" else
       match fields impl with
       | ["err"] => answer model
       | ["ok", o] =>
